@@ -292,4 +292,75 @@ def gen(rng, tier):
                     a = digits(rng, n, pa); b = digits(rng, n, pb)
                     E.reqs.append("C03 raw.submul %s %s %x" % (wl(a), wl(b), c))
                 E.reqs.append("C03 raw.submul %s %s %x" % (wl([0] * n), wl([MAX] * n), c))
+    # api-coverage block: inherent `BigInt::checked_div` (op `i.checked_div_m`): zero divisor (None), every sign
+    # pair, single-digit / multi-digit divisors, a < b, a = b, a = q*b + r with r = 0 / b-1, one Knuth-D window
+    cd = []
+    for a in (0, 1, 7, B, big(rng, 3), big(rng, 9)):
+        cd.append((a, 0))
+    for n in (1, 2, 3, 5, 9) + ((33, 64) if thorough else ()):
+        b = big(rng, n)
+        q = q_value(rng, rng.choice([1, 2, 3]))
+        cd += [(q * b, b), (q * b + b - 1, b), (q * b + r_value(rng, b), b), (b, b), (b - 1, b), (b + 1, b), (rng.randrange(b), b)]
+    for tag, an, bn in core_pairs(rng, 3, ["corr", "corr2", "maxlow"])[:12]:
+        cd.append((an, bn))
+    for (a, b) in cd:
+        for (sa, sb) in ((1, 1), (1, -1), (-1, 1), (-1, -1)):
+            E.reqs.append("C03 i.checked_div_m %s %s" % (wi(sa * a), wi(sb * b)))
+    E.reqs += scalar_requests(rng, thorough)
     return E.reqs
+
+
+SC_BITS = {"u8": 8, "u16": 16, "u32": 32, "u64": 64, "u128": 128, "usize": 64,
+           "i8": 8, "i16": 16, "i32": 32, "i64": 64, "i128": 128, "isize": 64}
+
+def scalar_requests(rng, thorough):
+    """api-coverage block: the scalar division forms of C03's anchors (ops `u./i. div_s rem_s s_div s_rem div_assign_s
+    rem_assign_s`, `s.rem_assign_u`).  Scalars: 0 (zero divisor / zero dividend), 1, -1, MIN, MAX, values needing one and
+    two native digits, powers of two; big operand: 0 (zero divisor for the scalar-dividend forms), one / two / three /
+    many digits (the digit-count matches of `Div<BigUint> for u32/u64/u128`), |s|, |s|±1, exact multiples and
+    multiples ± 1, 2^(N-1) against MIN for `scalar %= big` (D6), all sign combinations for BigInt."""
+    out = []
+    k = 0
+    for t, bits in SC_BITS.items():
+        sg = t.startswith("i")
+        mx = (1 << (bits - 1)) - 1 if sg else (1 << bits) - 1
+        mn = -(1 << (bits - 1)) if sg else 0
+        scal = [0, 1, mx, mx - 1, 2, 3, 1 << (bits // 2), (1 << (bits - 2)) + 1, rng.randrange(1, mx + 1)]
+        if bits >= 64:
+            scal += [(1 << 32) - 1, 1 << 32, (1 << 63) - 1]
+        if bits == 128:
+            scal += [MAX, B, B + 1, (1 << 96) + 5, rng.randrange(B, mx + 1)]
+        if sg:
+            scal += [mn, mn + 1, -1, -2, -rng.randrange(1, mx + 1)]
+        if thorough:
+            scal += [rng.randrange(mn, mx + 1) for _ in range(12)]
+        scal = [s for s in dict.fromkeys(scal) if mn <= s <= mx]
+        for s in scal:
+            a = abs(s)
+            q = rng.randrange(1, 1 << 70)
+            bigs = [0, 1, a, a + 1, max(a - 1, 0), rng.randrange(1, B), MAX, B, big(rng, 2), big(rng, 3), big(rng, 40),
+                    a * q, a * q + 1, max(a * q - 1, 0), 1 << (bits - 1), (1 << bits) - 1, 1 << bits, (1 << 128) + 7]
+            rng.shuffle(bigs)
+            if not thorough:
+                bigs = bigs[:9] + [0, a]
+            for i, m in enumerate(bigs):
+                tok = "%s:%d" % (t, s)
+                k += 1
+                if not sg:
+                    op = ["div_s", "rem_s", "s_div", "s_rem", "div_assign_s", "rem_assign_s"][k % 6]
+                    if op in ("s_div", "s_rem"):
+                        out.append("C03 u.%s %s %s" % (op, tok, wu(m)))
+                    else:
+                        out.append("C03 u.%s %s %s" % (op, wu(m), tok))
+                sm = -m if rng.randrange(2) else m
+                op = ["div_s", "rem_s", "s_div", "s_rem", "div_assign_s", "rem_assign_s"][(k + 3 + k // 12) % 6]
+                if op in ("s_div", "s_rem"):
+                    out.append("C03 i.%s %s %s" % (op, tok, wi(sm)))
+                else:
+                    out.append("C03 i.%s %s %s" % (op, wi(sm), tok))
+                if i % 2 == 0:
+                    out.append("C03 s.rem_assign_u %s %s" % (tok, wu(m)))
+        # the D6 cell for every signed type: MIN %= 2^(N-1)
+        if sg:
+            out.append("C03 s.rem_assign_u %s:%d %s" % (t, mn, wu(1 << (bits - 1))))
+    return out
